@@ -273,6 +273,14 @@ def replay_harness(prop, h, fcs, logs_dir):
         if r.status != "failed":
             return False, None, "playback generation run did not fail again (%s %s)" % (r.status, r.reason)
         wanted = set(fc["description"] for fc in fcs)
+        if not r.playback and hspec.get("unwind_is_property") and hspec.get("hang_replay_vals") is not None:
+            # Kani prints no playback test for a failed unwinding assertion.  Where termination is the harness's
+            # property and its only symbolic inputs are `hang_replay_vals` single bytes of content, the test is
+            # written here: the same harness body, natively, with all-zero content.
+            hname = kani.qualify(h).split("::")[-1]
+            code = ("#[test]\nfn kani_concrete_playback_hang_%s() {\n    let concrete_vals: Vec<Vec<u8>> = vec![vec![0u8]; %d];\n"
+                    "    kani::concrete_playback_run(concrete_vals, %s);\n}" % (hname, int(hspec["hang_replay_vals"]), hname))
+            r.playback = [("synth", "unwinding assertion", "kani_concrete_playback_hang_%s" % hname, code)]
         if not r.playback:
             return False, None, "Kani printed no concrete playback test"
         # The printed unit tests are appended to the END of the module that defines the harness
